@@ -39,8 +39,8 @@ CHECKS = {
    note="shuttle explores sequentially consistent interleavings only; the model channel's timeouts fire only on an empty queue (abstract time) with a bounded budget per receiver. Pools are driven through WorkerPool::dispatch and drained by dropping the pool; the analyzers' process_parallel wrappers (which call shutdown) are not part of this check. The simulated wall clock is frozen during an execution.",
    design="4/C10"),
  "C11": dict(engine="netsim", technique="deterministic simulation with a counting allocator as cost oracle: long never-fingerprinting connections (endless HTTP heads, binary after SYN, oversized/unfinished TLS records, application data after a non-hello record, random bytes) in parallel on one analyzer, simulated clock advancing past the TTLs; allocation and live-heap sampled around every delivered packet",
-   text="Exploration: per delivered segment the bytes allocated while handling it and the heap bytes live after it are compared with fixed bounds (live <= connections x 512 KiB + 1 MiB; per packet <= 2 MiB + 64 x packet length; median of a connection's last tenth <= 2 x first tenth + 1 MiB). Quick: up to 2000 segments per connection; thorough: up to 100000. Capacities 1/4/64/1000, 1..12 parallel connections, segment sizes 1..1460.",
-   note="Constants are fixed in c11.rs and deliberately loose; they were revised once (from 128 KiB / 256 KiB) after measuring the parsers' constant factor (~17x the buffered bytes in temporaries) and per-segment bookkeeping, before the repair was written - see DESIGN. Work is measured as bytes allocated, a proxy for time that is deterministic; CPU time is not measured.",
+   text="Exploration: per delivered segment the bytes allocated while handling it and the heap bytes live after it are compared with fixed bounds (live <= connections x 512 KiB + 1 MiB; per packet <= 4 MiB + 64 x packet length; median of a connection's last tenth <= 2 x first tenth + 2 MiB). Quick: up to 2000 segments per connection; thorough: up to 100000. Capacities 1/4/64/1000, 1..12 parallel connections, segment sizes 1..1460.",
+   note="Constants are fixed in c11.rs and deliberately loose; they were revised (from 128 KiB / 256 KiB, then 2 MiB) after measuring the parsers' constant factor (17x..21x the buffered bytes in temporaries) and per-segment bookkeeping, before the repair was written - see DESIGN. Work is measured as bytes allocated, a proxy for time that is deterministic; CPU time is not measured.",
    design="4/C11"),
  "C15": dict(engine="netsim", technique="deterministic simulation: seeded traces of well-formed and malformed frames (Ethernet/raw/NULL 0x1e/AF loopback framing, IPv4 IHL 0..15, total-length/protocol/ethertype/version lies, truncation) x generated FilterConfigs; filtered run vs unfiltered run on the admitted sub-trace at the same simulated times",
    text="Exploration: filters are generated from the trace's own endpoints so that each sub-filter matches about half of them; all four analyzers (the unified one through its real packet loop). Checked per packet: nothing is reported for endpoints the filter rejects (endpoints as the analyzer's own parser assigns them), and every admitted packet yields exactly what the unfiltered analyzer yields on the admitted sub-trace.",
